@@ -95,7 +95,7 @@ let show_sig = function
   | Some (ps, r) -> "(" ^ String.concat "," (List.map hex_of_str ps) ^ ")" ^ hex_of_str r ^ "/" ^ hex_of_str (format_sig (ps, r))
 let c_sig pc s = match cache_of pc with None -> "noparse" | Some c -> show_sig (deobfuscate (c_remap_class c) s)
 
-let handle (line : string) : string =
+let rec handle (line : string) : string =
   let toks = List.filter (fun t -> not (String.length t > 0 && t.[0] = '=')) (String.split_on_char ' ' line) in
   let st = !cur in
   match toks with
@@ -222,6 +222,62 @@ let handle (line : string) : string =
           fnv line; fnv "\n"; incr n
       done
     with Exit -> ());
+    Printf.sprintf "dg=%016Lx;n=%d" !h !n
+  | ["E1"; blk] ->
+    let alpha = [| "a.A -> x:\n"; "b.B -> y:\n"; "a.C -> x:\n"; "    1:3:void m():10:12 -> f\n"; "    1:3:void n():20 -> f\n";
+                   "    4:6:void m(int) -> f\n"; "    void p(int) -> f\n"; "    2:5:void q.Q.r():7:7 -> g\n"; "    int fld -> f\n";
+                   "# {\"id\":\"sourceFile\",\"fileName\":\"S.kt\"}\n"; "garbage\n"; "    5:4:void inv() -> g\n" |] in
+    let maxlen = 5 and k = 12 in
+    let rec pow b e = if e = 0 then 1 else b * pow b (e - 1) in
+    let sweep_string idx =
+      let idx = ref idx and len = ref 0 and res = ref None and fin = ref false in
+      while not !fin do
+        if !len > maxlen then fin := true
+        else begin
+          let n = pow k !len in
+          if !idx < n then begin
+            let digits = Array.make !len 0 in
+            let x = ref !idx in
+            for i = !len - 1 downto 0 do digits.(i) <- !x mod k; x := !x / k done;
+            res := Some (String.concat "" (Array.to_list (Array.map (fun d -> alpha.(d)) digits)));
+            fin := true
+          end else begin idx := !idx - n; incr len end
+        end
+      done; !res in
+    let hx s = hex_of_str (str_of_string s) in
+    let queries =
+      List.map (fun c -> "K " ^ hx c) ["x"; "y"; "z"] @
+      List.map (fun (c, m) -> "T " ^ hx c ^ " " ^ hx m) [("x", "f"); ("x", "g"); ("y", "f"); ("y", "g")] @
+      List.map (fun l -> "L " ^ hx "x" ^ " " ^ hx "f" ^ " " ^ string_of_int l ^ " ~") [0; 1; 2; 3; 4; 5; 6; 7] @
+      List.map (fun l -> "L " ^ hx "x" ^ " " ^ hx "g" ^ " " ^ string_of_int l ^ " " ^ hx "F.java") [0; 2; 4; 5; 6] @
+      List.map (fun (c, m, l) -> "L " ^ hx c ^ " " ^ hx m ^ " " ^ string_of_int l ^ " ~") [("y", "f", 2); ("y", "g", 4); ("y", "f", 0); ("z", "f", 1)] @
+      List.map (fun (c, m, p) -> "P " ^ hx c ^ " " ^ hx m ^ " " ^ hx p) [("x", "f", ""); ("x", "f", "int"); ("x", "g", ""); ("y", "f", "int"); ("y", "f", "")] @
+      ["W"] in
+    let h = ref 0xcbf29ce484222325L in
+    let fnv s = String.iter (fun c -> h := Int64.mul (Int64.logxor !h (Int64.of_int (Char.code c))) 0x100000001b3L) s in
+    let blk = int_of_string blk in
+    let n = ref 0 in
+    let saved = !cur in
+    (try
+      for idx = blk * 512 to (blk + 1) * 512 - 1 do
+        match sweep_string idx with
+        | None -> raise Exit
+        | Some s ->
+          cur := mk_mstate (str_of_string s);
+          List.iter (fun q ->
+            let a = handle q in
+            (* specification, mapper model (both index modes) and cache model must agree; the common answer is digested *)
+            let vals = List.filter_map (fun p -> match String.index_opt p '=' with
+                                                 | Some i -> Some (String.sub p (i + 1) (String.length p - i - 1)) | None -> None)
+                         (String.split_on_char ';' a) in
+            let canon = match vals with
+              | v :: rest when List.for_all (fun w -> w = v) rest -> v
+              | _ -> "!!" ^ a in
+            fnv canon; fnv "\n") queries;
+          incr n
+      done
+    with Exit -> ());
+    cur := saved;
     Printf.sprintf "dg=%016Lx;n=%d" !h !n
   | ["HU"; h] -> b2s (utf8_valid (str_of_hex h))
   | ["HT"; h] -> let b = str_of_hex h in if utf8_valid b then hex_of_str (trim b) else "~"
